@@ -1,0 +1,10 @@
+//go:build verif
+
+package clocks
+
+// VerifNewTicker builds a Ticker from a cancel and a trigger function, so that the
+// verification harness can provide a manual Clock whose tickers honour Stop
+// (FrozenClock's tickers ignore it).
+func VerifNewTicker(cancel func(), trigger func()) *Ticker {
+	return &Ticker{cancel: cancel, trigger: trigger}
+}
